@@ -122,7 +122,10 @@ CHECKS = {
          "link entry belongs) and the answers typed at the overwrite prompt (y/n/a/s, empty and unrecognised lines, upper case): a file is "
          "replaced only under the policy in force, only matching members are touched, missing parents appear with 0755. The "
          "library's own extraction (lha_reader_extract with header paths) is run under each of its three directory policies and "
-         "the resulting tree compared with TreeModel (PLAIN: time stamps of directories that receive children excepted). The "
+         "the resulting tree compared with TreeModel (PLAIN: time stamps of directories that receive children excepted). Owners: archives whose "
+         "entries record owner ids are extracted by the tool as a privileged user (files are handed to the recorded ids when created, directories "
+         "when their metadata is applied; links, parents and what was there before are not) and as an unprivileged one (the refusal is ignored) - "
+         "TreeModel carries an owner per node. The "
          "print command's stdout (banner + exactly the selected members' bytes) is compared with Cli.tla. Exhaustive bindings: every "
          "sequence of up to 3 (thorough: 4) prompt answers over {y, n, a, s, empty, unrecognised, upper case} on an archive whose files "
          "all exist already; every wildcard pattern of up to 3 (thorough: 5) characters over {*, ?, a, b} against members named by "
